@@ -3,7 +3,7 @@
 //verif:assume the local file system is an in-memory model with POSIX directory semantics (afero.Fs stub: sorted directory listings, O_EXCL honoured, a path is a file or a directory); afero.Walk runs from source; atomicity of O_EXCL between processes, fsync and real directory iteration are the kernel's and are outside this check
 //verif:assume key universe for listings: a solver-chosen subset of {a/b/x, a/b/y/z, a/bc/x, a/b-c/x, a-b/x, ab, c} (components that prefix one another, bytes below '/'), prefixes {"", a, a/, a/b, a/b/, a-b/, zz/}, delimiter "" or "/", every page size 1..5, pages followed by token to the end
 //verif:cover VerifC16List delimiter full-scan-multi-page prefix-with-slash
-//verif:cover VerifC16Objects exclusive-refused overwrite deleted put-error-reported
+//verif:cover VerifC16Objects exclusive-refused overwrite deleted put-error-reported source-returns-data-with-eof
 //verif:cover VerifC16ExclusiveRace interleaved
 package localfs
 
@@ -102,6 +102,7 @@ type vFailingSource struct {
 	failAt int // WriteTo / Read fail after this many bytes (-1: never)
 	pos    int
 	asWT   bool
+	eofWithData bool // the last bytes are returned together with io.EOF (as gzip.Reader or iotest.DataErrReader do)
 }
 
 func (s *vFailingSource) Read(p []byte) (int, error) {
@@ -120,6 +121,9 @@ func (s *vFailingSource) Read(p []byte) (int, error) {
 	}
 	copy(p, s.b[s.pos:s.pos+n])
 	s.pos += n
+	if s.eofWithData && s.pos == len(s.b) && !(s.failAt >= 0 && s.failAt <= len(s.b)) {
+		return n, io.EOF
+	}
 	return n, nil
 }
 
@@ -178,9 +182,14 @@ func VerifC16Objects() {
 	failKey := "f"
 	src := &vFailingWT{vFailingSource{b: []byte("0123"), failAt: vChoose("failAt", 5) - 1}}
 	var perr error
-	if vChoose("sourceKind", 2) == 1 {
+	switch vChoose("sourceKind", 3) {
+	case 1:
 		perr = st.Put(ctx, failKey, src, storage.NoOverWrite)
-	} else {
+	case 2:
+		src.eofWithData = true
+		vCover("source-returns-data-with-eof")
+		perr = st.Put(ctx, failKey, &src.vFailingSource, storage.NoOverWrite)
+	default:
 		perr = st.Put(ctx, failKey, &src.vFailingSource, storage.NoOverWrite)
 	}
 	if src.failAt >= 0 && src.failAt < 4 {
@@ -188,6 +197,10 @@ func VerifC16Objects() {
 		vAssert(perr != nil, "failed-write-is-reported")
 	} else {
 		vAssert(perr == nil, "complete-write-succeeds")
+		frd, ferr := st.Get(ctx, failKey)
+		vAssert(ferr == nil, "get")
+		fgot, _ := io.ReadAll(frd)
+		vAssert(string(fgot) == "0123", "successful-write-stores-every-byte-of-the-source")
 	}
 	// deleting a name that is not a key but a prefix of keys removes none of them
 	vAssert(st.Put(ctx, "p/q/one", bytes.NewReader([]byte("1")), storage.NoOverWrite) == nil && st.Put(ctx, "p/q/two", bytes.NewReader([]byte("2")), storage.NoOverWrite) == nil, "put-under-prefix")
